@@ -4,6 +4,7 @@ package main
 
 import (
 	"go/token"
+	"go/types"
 	"strings"
 
 	"golang.org/x/tools/go/ssa"
@@ -512,5 +513,177 @@ func checkC16(c *Ctx, r *Report) {
 		r.Check("C16-reply", fnName(fn), "challenge captured from the ;PQ line", c.pos(fn.Pos()), found,
 			"SecureChallenge is a slice of the line matched by the ;PQ prefix test", "the secure-login challenge is not taken from the ;PQ line")
 	}
+	c16Extra(c, r)
 	r.NotCov = append(r.NotCov, "the numeric value of the response for all challenge/password pairs (shift/or loop, sign, decimal formatting)")
+}
+
+// c16Extra: rules added after seeded changes.
+func c16Extra(c *Ctx, r *Report) {
+	const pkg = "fbb"
+	// ---- the payload is hashed whole: no fixed-size scratch buffer on the way to md5.Sum
+	r.Rule("C16-whole", 1, "the hashed payload is never truncated")
+	if fn := c.Func(pkg, "secureLoginResponse"); fn == nil {
+		r.Fail("C16-whole", "anchor secureLoginResponse not found")
+	} else {
+		bad := ""
+		for _, ci := range callsTo(fn, false, "builtin.copy") {
+			dst := ci.Common().Args[0]
+			// backing store of the destination
+			fixed := false
+			var walk func(v ssa.Value, depth int)
+			walk = func(v ssa.Value, depth int) {
+				if depth > 6 {
+					return
+				}
+				switch x := v.(type) {
+				case *ssa.Slice:
+					walk(x.X, depth+1)
+				case *ssa.Alloc:
+					if _, isArr := x.Type().Underlying().(*types.Pointer).Elem().Underlying().(*types.Array); isArr {
+						fixed = true
+					}
+				case *ssa.MakeSlice:
+					if _, isC := constInt(x.Len); isC {
+						fixed = true
+					}
+				case *ssa.Phi:
+					for _, e := range x.Edges {
+						walk(e, depth+1)
+					}
+				}
+			}
+			walk(dst, 0)
+			if fixed {
+				bad = c.pos(ci.Pos())
+			}
+		}
+		r.Check("C16-whole", fnName(fn), "payload assembled without a fixed-size buffer", c.pos(fn.Pos()), bad == "",
+			"challenge, password and salt are joined without a length limit", "the payload is copied into a buffer of constant size at "+bad+": copy truncates silently, so for a long password (more than 56 bytes with an 8-digit challenge) the salt - or part of the password - is cut off before hashing and the response is wrong")
+	}
+
+	// ---- every auxiliary address is announced, whatever happens to the others
+	r.Rule("C16-auxlist", 1, "the ;FW line lists every local address")
+	if fn := c.Func(pkg, "(*Session).sendHandshake"); fn == nil {
+		r.Fail("C16-auxlist", "anchor sendHandshake not found")
+	} else {
+		found := false
+		for _, l := range naturalLoops(fn) {
+			// the loop that ranges over s.localFW
+			ranges := false
+			for b := range l.body {
+				for _, in := range b.Instrs {
+					if ia, ok := in.(*ssa.IndexAddr); ok && strings.HasSuffix(pathOf(ia.X), ".localFW") {
+						if _, isPhiIdx := ia.Index.(*ssa.BinOp); isPhiIdx {
+							ranges = true
+						}
+						if _, isPhi := ia.Index.(*ssa.Phi); isPhi {
+							ranges = true
+						}
+					}
+				}
+			}
+			if !ranges {
+				continue
+			}
+			found = true
+			o := r.Add("C16-auxlist", fnName(fn), "loop over localFW", c.pos(l.header.Instrs[0].Pos()))
+			// (1) the loop is only left from its header
+			early := ""
+			for b := range l.body {
+				if b == l.header {
+					continue
+				}
+				for _, s := range b.Succs {
+					if !l.body[s] {
+						if ret, isRet := s.Instrs[len(s.Instrs)-1].(*ssa.Return); isRet && isErrorExit(ret) {
+							continue
+						}
+						early = c.pos(b.Instrs[len(b.Instrs)-1].Pos())
+						if early == "-" || early == "" {
+							early = c.pos(b.Instrs[0].Pos())
+						}
+					}
+				}
+			}
+			// (2) every iteration writes something
+			writes := map[*ssa.BasicBlock]bool{}
+			for b := range l.body {
+				for _, in := range b.Instrs {
+					if ci, ok := in.(ssa.CallInstruction); ok && callName(ci.Common()) == "fmt.Fprintf" {
+						writes[b] = true
+					}
+				}
+			}
+			silent := false
+			{
+				seen := map[*ssa.BasicBlock]bool{}
+				var stack []*ssa.BasicBlock
+				for _, s := range l.header.Succs {
+					if l.body[s] && s != l.header {
+						stack = append(stack, s)
+					}
+				}
+				for len(stack) > 0 {
+					b := stack[len(stack)-1]
+					stack = stack[:len(stack)-1]
+					if seen[b] || writes[b] {
+						continue
+					}
+					seen[b] = true
+					for _, s := range b.Succs {
+						if s == l.header {
+							silent = true
+						} else if l.body[s] {
+							stack = append(stack, s)
+						}
+					}
+				}
+			}
+			switch {
+			case early != "":
+				o.Bad("the loop over the local addresses can be left from inside its body (near %s), not only when the list is exhausted: after an auxiliary address whose password is known, the remaining addresses are missing from the ;FW line", early)
+			case silent:
+				o.Bad("an iteration of the loop over the local addresses can complete without writing anything: that address is missing from the ;FW line")
+			default:
+				o.OK("the loop ends only when the list is exhausted and every iteration writes the address or the address|response pair")
+			}
+		}
+		if !found {
+			r.Add("C16-auxlist", fnName(fn), "loop over localFW", c.pos(fn.Pos())).Bad("no loop over s.localFW found in sendHandshake (unresolved)")
+		}
+	}
+
+	// ---- a challenge line is recognised before the prompt test (a challenge may end in '>')
+	r.Rule("C16-challenge", 1, "the ;PQ line is recognised whatever the challenge looks like")
+	if fn := c.Func(pkg, "(*Session).readHandshake"); fn == nil {
+		r.Fail("C16-challenge", "anchor readHandshake not found")
+	} else {
+		isCallOn := func(v ssa.Value, name, arg string) bool {
+			call, ok := v.(*ssa.Call)
+			if !ok || callName(&call.Call) != name {
+				return false
+			}
+			s, _ := constString(call.Call.Args[1])
+			return s == arg
+		}
+		n := 0
+		eachInstr(fn, func(b *ssa.BasicBlock, _ int, in ssa.Instruction) {
+			ifi, ok := in.(*ssa.If)
+			if !ok || !isCallOn(ifi.Cond, "strings.HasSuffix", ">") {
+				return
+			}
+			n++
+			notPQ := false
+			for _, cd := range condsAt(b) {
+				if isCallOn(cd.V, "strings.HasPrefix", ";PQ") && !cd.Truth {
+					notPQ = true
+				}
+			}
+			r.Check("C16-challenge", fnName(fn), "prompt test", c.pos(ifi.Cond.Pos()), notPQ,
+				"made only for lines that are not ;PQ lines", "the prompt test (line ends in '>') is made before the ;PQ test: a challenge ending in '>' is taken for the prompt, no challenge is recorded, no ;PR is sent - and a session without a login callback carries on instead of failing")
+		})
+		if n == 0 {
+			r.Add("C16-challenge", fnName(fn), "prompt test", c.pos(fn.Pos())).Bad("no test of the prompt suffix '>' found in readHandshake (unresolved)")
+		}
+	}
 }
